@@ -350,12 +350,12 @@ theorem handleOnConnection (h : KInv cfg k) (fd : Nat) (l r : SockAddr) (s : Seg
           split
           · exact (h.emit _ _ rfl).remove _
           dsimp only
-          have h1 : KInv cfg (k.setSock fd { so with tcb := some (t.handleEstablished cfg s).1 }) := by
+          have h1 : KInv cfg (k.setSock fd { so with tcb := some ((t.heard cfg s).handleEstablished cfg s).1 }) := by
             apply h.setSock
             intro t' ht'
             simp only [Option.some.injEq] at ht'
             subst ht'
-            exact Tcb.caps_handleEstablished s hc
+            exact Tcb.caps_handleEstablished s (Tcb.caps_heard cfg s hc)
           split
           · exact h1.emit _ _ (Tcb.replySeg_facts cfg _ _ _ _).1
           · exact h1
@@ -385,7 +385,7 @@ theorem closeChild (h : KInv cfg k) (child : Nat) : KInv cfg (k.closeChild child
     · exact h.remove _
     · exact (h.emit _ _ rfl).remove _
 
-theorem onClose (h : KInv cfg k) (fd : Nat) : KInv cfg (k.onClose fd).1 := by
+theorem onClose (h : KInv cfg k) (fam : Bool) (fd : Nat) : KInv cfg (k.onClose fam fd).1 := by
   unfold Kernel.onClose
   split
   · exact h
@@ -406,10 +406,10 @@ theorem onClose (h : KInv cfg k) (fd : Nat) : KInv cfg (k.onClose fd).1 := by
         · exact h
       · exact h
 
-theorem close (h : KInv cfg k) (fd : Nat) : KInv cfg (k.close fd) := by
+theorem close (h : KInv cfg k) (fam : Bool) (fd : Nat) : KInv cfg (k.close fam fd) := by
   unfold Kernel.close
   dsimp only
-  have h1 := h.onClose fd
+  have h1 := h.onClose fam fd
   split
   · exact h1.remove _
   · exact h1
@@ -458,19 +458,22 @@ theorem persistProbe (h : KInv cfg k) (fd : Nat) : KInv cfg (k.persistProbe cfg 
     · rename_i t ht
       dsimp only
       have hc := h.tcb hs ht
+      have hset : ∀ t' : Tcb, t'.sendBuf = t.sendBuf → t'.recvBuf = t.recvBuf →
+          KInv cfg (k.setSock fd { s with tcb := some t' }) := by
+        intro t' h1 h2
+        apply h.setSock
+        intro t'' ht''
+        simp only [Option.some.injEq] at ht''
+        subst ht''
+        unfold TcbCaps at hc ⊢
+        rw [h1, h2]; exact hc
       split
-      · apply h.setSock
-        intro t' ht'
-        simp only [Option.some.injEq] at ht'
-        subst ht'
-        exact hc
-      · apply KInv.emit
-        · apply h.setSock
-          intro t' ht'
-          simp only [Option.some.injEq] at ht'
-          subst ht'
-          exact hc
-        · rfl
+      · exact hset _ rfl rfl
+      · split
+        · refine KInv.abortWith ?_ _ _
+          exact hset _ rfl rfl
+        · refine KInv.emit ?_ _ _ rfl
+          exact hset _ rfl rfl
 
 theorem checkRetx0 (h : KInv cfg k) : KInv cfg (Kernel.checkRetx0 cfg k) := by
   unfold Kernel.checkRetx0
